@@ -217,17 +217,17 @@ partial def runRds (rs : RRegs) (out : List String) : List String → Option (Li
     let (A, immA) := rGet rs a; let (B, _) := rGet rs b
     let alias := a == b
     let inplace (res : RdsR) := runRds (rs.set a (res.1, immA)) (showRes res immA :: out) rest
-    let refuse := runRds rs (showRes (A, some .immutable) immA :: out) rest
+    let refuse (_ : Unit) := runRds rs (showRes (A, some .immutable) immA :: out) rest
     let pred (v : Bool) := runRds rs (showBool v :: out) rest
     match op with
-    | "uu" => if immA then refuse else inplace (rdsUnionUpdate Consts.singletons A B alias)
-    | "iu" => if immA then refuse else inplace (rdsInterUpdate A B alias)
-    | "upd" => if immA then refuse else inplace (rdsUpdate Consts.singletons A B)
+    | "uu" => if immA then refuse () else inplace (rdsUnionUpdate Consts.singletons A B alias)
+    | "iu" => if immA then refuse () else inplace (rdsInterUpdate A B alias)
+    | "upd" => if immA then refuse () else inplace (rdsUpdate Consts.singletons A B)
     | "du" =>
-      if immA then (if !alias && B.items.isEmpty then inplace (A, none) else refuse)
+      if immA then (if !alias && B.items.isEmpty then inplace (A, none) else refuse ())
       else inplace (rdsDiffUpdate A B alias)
-    | "duo" => if immA then refuse else inplace (rdsDiffUpdate A B alias)   -- `-=`: `__isub__` is overridden to raise
-    | "sdu" => if immA then refuse else inplace (rdsSymDiffUpdate Consts.singletons A B alias)
+    | "duo" => if immA then refuse () else inplace (rdsDiffUpdate A B alias)   -- `-=`: `__isub__` is overridden to raise
+    | "sdu" => if immA then refuse () else inplace (rdsSymDiffUpdate Consts.singletons A B alias)
     | "sub" => pred (SetAlg.isSubset A.items B.items)
     | "sup" => pred (SetAlg.isSuperset A.items B.items)
     | "dj" => pred (SetAlg.isDisjoint A.items B.items)
@@ -252,8 +252,9 @@ partial def runRds (rs : RRegs) (out : List String) : List String → Option (Li
   | _ => none
 
 def rdCmpLine (a b : Rd) : String :=
-  let c := rdCmp a b
-  s!"eq={showBool (rdEq a b)} cmp={signOf c}"
+  -- the rich comparisons return NotImplemented (TypeError) across classes or types: `_cmp` is never reached
+  let c := if a.cls = b.cls ∧ a.typ = b.typ then signOf (rdCmp a b) else "na"
+  s!"eq={showBool (rdEq a b)} cmp={c}"
 
 def handleC07 : List String → Option String
   | "c07.set" :: script => do
